@@ -2386,6 +2386,9 @@ public:
 					setinf(s);
 					return *this;
 				}
+				// every other payload is a NaN as well (quiet when the most significant fraction bit is set)
+				setnan((rawFraction & ieee754_parameter<Real>::qnanmask) ? NAN_TYPE_QUIET : NAN_TYPE_SIGNALLING);
+				return *this;
 			}
 			uint64_t raw{ s ? 1ull : 0ull };
 			raw <<= 31;
@@ -2426,6 +2429,9 @@ public:
 					setinf(s);
 					return *this;
 				}
+				// every other payload is a NaN as well (quiet when the most significant fraction bit is set)
+				setnan((rawFraction & ieee754_parameter<Real>::qnanmask) ? NAN_TYPE_QUIET : NAN_TYPE_SIGNALLING);
+				return *this;
 			}
 			// normal and subnormal handling
 			uint64_t raw{ s ? 1ull : 0ull };
@@ -2469,6 +2475,9 @@ public:
 					setinf(s);
 					return *this;
 				}
+				// every other payload is a NaN as well (quiet when the most significant fraction bit is set)
+				setnan((rawFraction & ieee754_parameter<Real>::qnanmask) ? NAN_TYPE_QUIET : NAN_TYPE_SIGNALLING);
+				return *this;
 			}
 			if (rhs == 0.0) { // IEEE rule: this is valid for + and - 0.0
 				setbit(nbits - 1ull, s);
